@@ -199,3 +199,52 @@ Section Recompute.
     | None => None
     end.
 End Recompute.
+
+(* ---- interrupted repairs ---------------------------------------------------------------------
+   The command can be stopped at any point (full device: a write raises; kill).  Every modification of
+   jobs/ it makes is atomic (unlink, symlink, rename; params.json is rewritten through params.json.tmp +
+   replace), so the states an interruption can leave are: the first loop done on a prefix of its entries;
+   the main loop done on a prefix, possibly INSIDE the iteration on the next entry.  Inside an iteration,
+   in the order of the repaired command (fixes/C20-6: the result files are aliased BEFORE the directory is
+   moved; the order of the pinned commit - move, then alias - is `partials_moved_first`):
+       the dangling link at the new path removed;
+       link mode:    then the link created, the aliases not yet;
+       cleanup mode: then params.json rewritten (same recomputed identity: not visible here) and the result
+                     files aliased in the directory, the directory not yet moved.                        *)
+Definition partials (cl : bool) (w : ws) (k : key) : list ws :=
+  if negb (yielded w k) then [] else
+  match lookup k w with
+  | Some (Dir d) =>
+      match d_recomp d with
+      | None => []
+      | Some n =>
+          if k_id n =? k_id k then []
+          else
+            let w1 := if is_link w n && negb (exists_ w n) then unlink n w else w in
+            match resolve w1 n with
+            | Some _ => [w1]
+            | None => if cl then [w1; update_dir k (alias (k_name k) (k_name n)) w1]
+                      else [w1; add_link n k w1]
+            end
+      end
+  | _ => []
+  end.
+
+(* the order of the commit that introduced the aliases: the directory is moved first; an interruption then
+   leaves it under its new identifier without the aliases *)
+Definition partials_moved_first (w : ws) (k : key) : list ws :=
+  match lookup k w with
+  | Some (Dir d) => match d_recomp d with Some n => [rename k n w] | None => [] end
+  | _ => []
+  end.
+
+Fixpoint prefixes {A} (l : list A) : list (list A) :=
+  match l with [] => [[]] | x :: l' => [] :: map (cons x) (prefixes l') end.
+
+(* every state an interruption of `deprecated list --fix [--cleanup]` (repaired command) can leave *)
+Definition interrupted (cl : bool) (o1 o2 : list key) (w : ws) : list ws :=
+  (if cl then map (prepass w) (prefixes o1) else []) ++
+  (let w0 := if cl then prepass w o1 else w in
+   flat_map (fun pr => let w1 := mainpass true true cl w0 pr in
+                       w1 :: match nth_error o2 (length pr) with Some x => partials cl w1 x | None => [] end)
+            (prefixes o2)).
